@@ -78,7 +78,7 @@ def stepR (guarded : Bool) (P : Params) (p : RPool) : RStep → RPool
     if !p.up then p
     else if rqueued p.tasks ≥ P.qcap then
       -- `sendErrorResponse` on the I/O thread of the current transport
-      { p with log := p.log ++ overflowCmds.map (fun c => ⟨p.gen, p.gen, sid, c⟩) }
+      { p with log := p.log ++ (overflowCmds (isHeadRaw data)).map (fun c => ⟨p.gen, p.gen, sid, c⟩) }
     else { p with tasks := p.tasks ++ [{ gen := p.gen, sid := sid, cmds := P.respond sid data }] }
   | .pick => if rrunning p.tasks < P.w then { p with tasks := rmarkFirst p.tasks } else p
   | .emit i =>
